@@ -139,6 +139,22 @@ pub fn exec(prop: &str, case: &Case) -> Outcome {
                 detail: serde_json::Value::Null,
             }
         }
+        ("C01", Case::Delta(dc)) => {
+            let run = crate::mem::run_delta_boundary(dc);
+            let tags = vec![
+                ("probe.root_transition_delta_exactly_at_target", run.short),
+                ("big.bytes", run.bytes),
+            ];
+            Outcome {
+                digest: run.digest,
+                nontrivial: true,
+                violation: run.violation,
+                explicit: case.clone(),
+                tags,
+                steps: run.bytes / 12,
+                detail: serde_json::json!({"target_delta": dc.target, "measured_delta": run.intr, "file_bytes": run.bytes}),
+            }
+        }
         ("C06", Case::FromIter(fc)) => {
             let run = crate::multi::run_from_iter(fc);
             let violation = crate::multi::check_from_iter(fc, &run);
